@@ -59,9 +59,12 @@ func (c *Ctx) Add(e *driver.Env) {
 
 // Prop is one registered property check.
 type Prop struct {
-	ID          string
-	Level       string // exploration | fault_enumeration
-	Race        bool   // build the child with -race
+	ID    string
+	Level string // exploration | fault_enumeration
+	Race  bool   // build the child with -race
+	// RaceFrom: with Race, only the cases with index >= RaceFrom(tier) run in the
+	// race-instrumented binary; the others run in the plain one.
+	RaceFrom    func(tier string) int
 	Rule        string
 	Assumptions []string
 	Exhaustive  func(tier string) bool
